@@ -77,7 +77,39 @@ Judge(rec) ==
           <<(~rec.err /\ op \in {"move", "remove"} /\ AllPlain(rec) /\ ~partial) => \A f \in files : StateOf(rec.after.src, f) = "absent",
             "after a successful move/remove a file is still at its source">> >>)
 
+\* ---- sequences of operations on one handle -----------------------------------------------------------
+\* abstract state: which directory holds a full set of files (control file + listed files), and where the handle is
+\* dirs = [src, a, b] -> BOOLEAN ("holds the upload");  the model of Copy / Move / Remove without faults
+RECURSIVE SeqModel(_, _, _, _)
+SeqModel(ops, k, holds, at) ==
+    IF k > Len(ops) THEN <<>>
+    ELSE LET o == ops[k]
+             holds2 == CASE o.op = "copy"   -> [holds EXCEPT ![o.to] = TRUE]
+                         [] o.op = "move"   -> [[holds EXCEPT ![at] = FALSE] EXCEPT ![o.to] = TRUE]
+                         [] o.op = "remove" -> [holds EXCEPT ![at] = FALSE]
+             at2 == IF o.op = "remove" THEN at ELSE o.to
+         IN <<[holds |-> holds2, at |-> at2]>> \o SeqModel(ops, k + 1, holds2, at2)
+DirHolds(snap, rec) == \A f \in BaseSet(rec) \cup {rec.ctl} : StateOf(snap, f) = KeyOf(rec, f)
+DirEmptyOfUpload(snap, rec) == \A f \in BaseSet(rec) \cup {rec.ctl} : StateOf(snap, f) = "absent"
+JudgeSeq(rec) ==
+    LET ops == rec.in.ops
+        m == SeqModel(ops, 1, [src |-> TRUE, a |-> FALSE, b |-> FALSE], "src")
+        Snap(s, d) == CASE d = "src" -> s.src [] d = "a" -> s.a [] d = "b" -> s.b
+        bad == {k \in 1..Len(ops) :
+                  \/ rec.steps[k].err \/ rec.steps[k].panic
+                  \/ rec.steps[k].handle # m[k].at
+                  \/ \E d \in {"src", "a", "b"} :
+                        IF m[k].holds[d] THEN ~DirHolds(Snap(rec.steps[k], d), rec) ELSE ~DirEmptyOfUpload(Snap(rec.steps[k], d), rec)
+                  \/ StateOf(rec.steps[k].out, "sentinel") # "full:sentinel"}
+        first == IF bad = {} THEN 0 ELSE CHOOSE k \in bad : \A j \in bad : k <= j
+    IN IF Len(rec.steps) # Len(ops) THEN V(FALSE, "op-sequence", "missing steps")
+       ELSE IF bad = {} THEN V(TRUE, "op-sequence", "")
+       ELSE V(FALSE, "op-sequence", "after operation " \o ToString(first) \o " (" \o ops[first].op \o
+              ") of a sequence on one handle the directories or the handle are not what Copy/Move/Remove should leave")
+
+JudgeAny(rec) == IF rec.ev = "upseq" THEN JudgeSeq(rec) ELSE Judge(rec)
+
 Init == l \in 1..Len(Trace) /\ verdict = Pending
-Next == verdict.class = "pending" /\ verdict' = Judge(Trace[l]) /\ UNCHANGED l
+Next == verdict.class = "pending" /\ verdict' = JudgeAny(Trace[l]) /\ UNCHANGED l
 Spec == Init /\ [][Next]_vars
 =============================================================================
